@@ -361,16 +361,24 @@ Section Interp.
         end
     end.
 
-  (** addrxlat_op without the final call of the operation *)
-  Fixpoint op_core (fuel : nat) (infl : list key) (caps : N) (fa : fulladdr) : cres :=
+  (** addrxlat_op without the final call of the operation, given the
+      function that serves nested calls *)
+  Definition op_body (nested : list key -> fulladdr -> cres)
+             (infl : list key) (caps : N) (fa : fulladdr) : cres :=
     match op_pre infl caps fa with
     | inl r => r
-    | inr (s, k, c) =>
-        match fuel with
-        | O => OutOfFuel
-        | S f =>
-            do_chain (fun i a => op_core f i rcaps a) s (k :: infl) caps (chain_tbl c) fa
-        end
+    | inr (s, k, c) => do_chain nested s (k :: infl) caps (chain_tbl c) fa
+    end.
+
+  (** ... and with the recursion closed on fuel: nested calls come from
+      read32/read64, hence with ctl.caps = read_caps *)
+  Fixpoint op_core (fuel : nat) (infl : list key) (caps : N) (fa : fulladdr) : cres :=
+    match fuel with
+    | O => match op_pre infl caps fa with
+           | inl r => r
+           | inr _ => OutOfFuel
+           end
+    | S f => op_body (fun i a => op_core f i rcaps a) infl caps fa
     end.
 
   (** addrxlat_op: status and the list of addresses the operation was invoked
